@@ -51,6 +51,7 @@ pub struct SqPackIndexHeader {
 
     folder_descriptor: SegementDescriptor,
 
+    #[brw(pad_before = 4)]
     #[brw(pad_size_to = 4)]
     pub(crate) index_type: IndexType,
 
@@ -155,7 +156,7 @@ pub struct SqPackIndex {
     #[br(seek_before = SeekFrom::Start(sqpack_header.size.into()))]
     index_header: SqPackIndexHeader,
 
-    #[br(seek_before = SeekFrom::Start(index_header.file_descriptor.offset.into()), count = index_header.file_descriptor.size / 16, args { inner: (&index_header.index_type,) })]
+    #[br(seek_before = SeekFrom::Start(index_header.file_descriptor.offset.into()), count = index_header.file_descriptor.size / if index_header.index_type == IndexType::Index2 { 8 } else { 16 }, args { inner: (&index_header.index_type,) })]
     #[bw(args(&index_header.index_type,))]
     pub entries: Vec<FileEntry>,
 
